@@ -320,12 +320,16 @@ def _arr(name, log):
     from ..absint import Obj
     from ..symenv import Val
     o = Obj("ndarray-element", {"fmt": name, "shape": (4, 5)})
-    o.getitem = lambda idx: Val(f"{name}[{idx!r}]")
-    o.methods["setitem"] = lambda idx, v: log.append(("set", name, idx, str(v)))
+    # numpy: a[i] is a[(i,)] for every index that is not a tuple (an int, a slice, a list = fancy index of one axis)
+    tup = lambda idx: idx if isinstance(idx, tuple) else (idx,)
+    o.getitem = lambda idx: Val(f"{name}[{tup(idx)!r}]")
+    o.methods["setitem"] = lambda idx, v: log.append(("set", name, tup(idx), str(v)))
     return o
 
 
-@rule("C16.index-uniform", props=["C16"], min_instances=8, mutants=[
+@rule("C16.index-uniform", props=["C16"], min_instances=14, mutants=[
+    ("a list index is spread over several axes", ("multivector", "    def __getitem__(self, item):\n        if not isinstance(item, tuple):", "    def __getitem__(self, item):\n        if not isinstance(item, (tuple, list)):")),
+    ("a list index of an assignment is spread over several axes", ("multivector", "        if not isinstance(indices, tuple):\n            indices = (indices,)", "        if not isinstance(indices, (tuple, list)):\n            indices = (indices,)")),
     ("ndarray assignment through an ellipsis", ("multivector", "            self.values()[(slice(None), *indices)] = values", "            self.values()[(..., *indices)] = values")),
     ("getitem indexes only with the first index", ("multivector", "            return_values = values.__class__(value[item] for value in values)", "            return_values = values.__class__(value[item[0]] for value in values)")),
     ("setitem pairs coefficients in reversed order", ("multivector", "            for self_values, other_value in zip(self.values(), values):", "            for self_values, other_value in zip(self.values(), reversed(values)):")),
@@ -343,7 +347,9 @@ def index_uniform(ctx):
     SL = slice(None)
     # __getitem__
     fn = ctx.func(f"{M}.__getitem__")
-    for label, item, want_idx in (("int", 3, (3,)), ("tuple", (1, 2), (1, 2)), ("slice", slice(0, 2), (slice(0, 2),))):
+    # a list is numpy's fancy index for ONE axis: like an int or a slice it is one index, not a sequence of indices
+    for label, item, want_idx in (("int", 3, (3,)), ("tuple", (1, 2), (1, 2)), ("slice", slice(0, 2), (slice(0, 2),)),
+                                  ("list (fancy index of one axis)", [0, 2], ([0, 2],)), ("tuple holding a list", (1, [0, 2]), (1, [0, 2]))):
         c = f"{M}.__getitem__#list-backed:{label}"
         log = []
         mv = mv_obj(alg, (4, 1, 6), [_arr("A0", log), _arr("A1", log), _arr("A2", log)])
@@ -375,7 +381,7 @@ def index_uniform(ctx):
                              f"(slice(None), *index) = {(SL,) + want_idx!r} - the first axis enumerates the blades", fn)
     # __setitem__
     fn = ctx.func(f"{M}.__setitem__")
-    for label, indices, want_idx in (("int", 0, (0,)), ("tuple", (1, 2), (1, 2))):
+    for label, indices, want_idx in (("int", 0, (0,)), ("tuple", (1, 2), (1, 2)), ("list (fancy index of one axis)", [0, 2], ([0, 2],))):
         c = f"{M}.__setitem__#list-backed:{label}"
         log = []
         mv = mv_obj(alg, (4, 1, 6), [_arr("A0", log), _arr("A1", log), _arr("A2", log)])
